@@ -2,6 +2,7 @@
 import json
 
 import gen
+import bigfam
 import graphfam
 from common import pmap
 
@@ -156,9 +157,13 @@ def run(ctx):
             seen.add(ev['tid'])
             ctx.sample({'graph': ev['pool']['1'], 'components': ev['out']})
     ctx.sample({'history': sim[0] if sim else None})
+    # large lassos: one big cycle / a long chain into a small cycle (size-dependent behaviour of the SCC routine)
+    bigfam.run_big(ctx, bigfam.cases(rnd, ['sccs'], 6 if q else 60, nrange=(1050, 1600) if q else (1050, 4000)))
 
 
 def replay(ctx, path):
+    if bigfam.maybe_replay(ctx, path):
+        return
     obj = json.load(open(path))
     b = obj['case']['behaviour']
     events, bad = finish_traces(ctx, [b])
